@@ -129,7 +129,7 @@ func vSameAtoms(a, b []vAtom) bool {
 }
 
 //verif:harness prop=C19 quick=3 thorough=6
-//verif:bounds Within/Overlap/Key/And/Or/Not/strand filters and FeatureSlice.Filter on tables of 2 features (quick) / 3 (thorough) with S1 locations; bounds and coordinates symbolic
+//verif:bounds Within/Overlap/Key/And/Or/Not/strand filters and FeatureSlice.Filter on tables of 2 features (quick) / 3 (thorough) with S1 locations and a join with parts on both strands; bounds and coordinates symbolic
 func VH_C19_filters() {
 	L := vIntIn("L", 1, vCap)
 	nf := 2 + vTier()
@@ -145,6 +145,11 @@ func VH_C19_filters() {
 			fk = fam
 		}
 		ff[k] = Feature{key, vGenFamily("f"+string(rune('0'+k)), fk, L, 4), vFeatTag(k)}
+	}
+	if fam == 1 && vBool("mixed") {
+		// a join with parts on both strands is neither a forward- nor a reverse-strand feature
+		q := vGenParts("m", 2, L, 2)
+		ff[0].Loc = Join(q[0].Complement(), q[1])
 	}
 	lo := vIntIn("lo", 0, vCap)
 	hi := vIntIn("hi", 0, vCap)
